@@ -257,7 +257,8 @@ func (g *gen) shapeCase() error {
 		"changesAfter.only-feeds-always-receiving-stage", "DropExcess.returns-on-every-closed-receive",
 		"mergeCollectionExcess.returns-on-every-closed-receive",
 		"Update.send-after-GetAndUpdate-returned", "Value.set.send-after-GetAndUpdate-returned",
-		"Delete.one-Lock-released-on-retry-and-after-send"}
+		"Delete.one-Lock-released-on-retry-and-after-send",
+		"Value.set.turnstile-left-on-every-path", "Update.turnstile-left-on-every-path", "Delete.turnstile-left-on-every-path"}
 	if fd := bus.fn("listener", "send"); fd != nil {
 		st := bus.stmts(fd.Body)
 		facts[order[0]] = len(st) >= 3 && st[0] == "l.m.RLock()" && st[1] == "defer l.m.RUnlock()" && strings.HasPrefix(st[2], "select {")
@@ -437,6 +438,56 @@ func (g *gen) shapeCase() error {
 		// model: RDelRetry (Unlock; next attempt) and RReturn (Unlock after the Send)
 		facts[order[14]] = nLock == 1 && nUnlock == 2
 	}
+
+	// Res.v RReturn: a writer that entered the turnstile leaves it on EVERY way out of the call (delivered,
+	// gave up on its send context, listener cancelled): after publishing.enter the leave is deferred at once,
+	// or it is an explicit call in the same block with no return statement between enter and leave.
+	// (A tree without the turnstile has nothing to pair: ts = false in the model.)
+	leavePaired := func(sf *srcFile, fd *ast.FuncDecl) bool {
+		if fd == nil {
+			return false
+		}
+		ok, seen := true, false
+		ast.Inspect(fd.Body, func(n ast.Node) bool {
+			b, isBlock := n.(*ast.BlockStmt)
+			if !isBlock {
+				return true
+			}
+			st := sf.stmts(b)
+			for i, x := range st {
+				if !strings.Contains(x, "publishing.enter(") || strings.Contains(x, "{") {
+					continue
+				}
+				seen = true
+				paired := false
+				for _, y := range st[i+1:] {
+					if strings.HasPrefix(y, "defer ") && strings.Contains(y, "publishing.leave(") && !strings.Contains(y, "{") {
+						// a plain deferred call; a deferred closure may leave conditionally (mutation R4-X2)
+						paired = true
+						break
+					}
+					if strings.Contains(y, "publishing.leave(") && !strings.Contains(y, "{") {
+						paired = true
+						break
+					}
+					if strings.Contains(y, "return") || strings.Contains(y, "panic(") || strings.Contains(y, "continue") || strings.Contains(y, "break") || strings.Contains(y, "goto ") {
+						break // a way out of the block before the leave
+					}
+				}
+				if !paired {
+					ok = false
+				}
+			}
+			return true
+		})
+		if !seen {
+			return !strings.Contains(sf.str(fd.Body), "publishing.")
+		}
+		return ok
+	}
+	facts[order[15]] = leavePaired(val, val.fn("Value", "set"))
+	facts[order[16]] = leavePaired(col, col.fn("Collection", "Update"))
+	facts[order[17]] = leavePaired(col, col.fn("Collection", "Delete"))
 
 	var rl, fl []string
 	jsRows := []any{}
